@@ -4,7 +4,7 @@
 Require Extraction.
 Require Import ExtrOcamlBasic.
 From FP Require Gen.Facts.
-From FP Require Import Model.Base Model.ItsWords Model.ItsFsm Model.Rdh Model.RdhChecks Model.Payload Model.Alpide Model.CdpRunning Model.Scanner Model.Writer Model.Collector Model.System Model.SystemView Model.Link Model.StatsCmp Model.Views Model.Protocol Model.ProtoTrace Spec.Grammar Spec.GrammarIts Spec.GrammarItsCheck Spec.GrammarItsCdw Spec.GrammarItsCdwCheck Spec.GrammarStaveCheck Spec.GrammarStaveCdwCheck Spec.WordLayout Spec.Diagram Spec.DiagramAbs Spec.RdhRules.
+From FP Require Import Model.Base Model.ItsWords Model.ItsFsm Model.Rdh Model.RdhChecks Model.Payload Model.Alpide Model.CdpRunning Model.Scanner Model.Writer Model.Collector Model.System Model.SystemView Model.Link Model.StatsCmp Model.Views Model.Protocol Model.ProtoTrace Model.Args Spec.Grammar Spec.GrammarIts Spec.GrammarItsCheck Spec.GrammarItsCdw Spec.GrammarItsCdwCheck Spec.GrammarStaveCheck Spec.GrammarStaveCdwCheck Spec.WordLayout Spec.Diagram Spec.DiagramAbs Spec.RdhRules.
 Extraction Language OCaml.
 Set Extraction KeepSingleton.
 Extraction "model.ml"
@@ -18,4 +18,5 @@ Extraction "model.ml"
   Model.CdpRunning.Build_vcfg Model.Alpide.rflags_list Model.Payload.preprocess
   Spec.RdhRules.rdh_sane Spec.RdhRules.running_violation Spec.RdhRules.h_header_id
   Model.ProtoTrace.replay_thread Model.ProtoTrace.cur_pfacts Model.Protocol.Build_cfg Model.Protocol.enabled Model.Protocol.greedy Model.Protocol.run Model.Protocol.init Model.Protocol.final Model.Protocol.mu
+  Model.Args.validate_args Model.Args.Build_args
   Spec.Diagram.dstep Spec.DiagramAbs.abs Spec.DiagramAbs.dstate_id Spec.DiagramAbs.dverdict_id.
